@@ -28,8 +28,9 @@ def main():
            "needs": meta.get("needs"), "demo_cmd": meta.get("demo_cmd"), "repo_head": subprocess.run("git -C /repo rev-parse HEAD", shell=True, capture_output=True, text=True).stdout.strip()}
     try:
         demos = [f for f in glob.glob(os.path.join(out, "*_test.go"))]
+        sub = os.environ.get("SEEDED_DEMO_DIR", "")
         for d in demos:
-            shutil.copy(d, wt)
+            shutil.copy(d, os.path.join(wt, sub))
         demo_cmd = meta["demo_cmd"].replace("/tmp/seeded/wt-" + sid.lower(), wt)
         if "cd " in demo_cmd and wt not in demo_cmd:
             demo_cmd = demo_cmd.split("&&", 1)[-1].strip()
